@@ -94,6 +94,33 @@ def run(rep, tier, driver):
             if variant is not None and kind != "none":
                 jobs.append((variant, full))
                 meta.append((i, "variant", full, kind, base))
+    # directed: an unsupported modification next to modifications that make the reactor take a second round (a group on a carbon that
+    # only exists after another group has added it: '6Me' + '7S'), in every written order, alone and inside a disaccharide
+    multi = []
+    adders = ["6Me", "6Ac", "2NAc", "NAc", "4NBz", "6Et"]
+    for gi in range(40 if tier == "quick" else 600):
+        sugar = rng.choice(["Glc", "Gal", "Man", "Fuc", "GlcN", "Xyl"])
+        dead = "%d%s" % (rng.choice([2, 3, 4]), rng.choice(dead_fg)) if dead_fg else None
+        if dead is None:
+            break
+        add = rng.choice(adders)
+        if sugar.endswith("N") and add[0] == "N":
+            add = "6Me"
+        late = "%d%s" % (rng.choice([7, 8]), rng.choice(["S", "P", "Ac", "Et"]))
+        mods = [dead, add, late] if rng.random() < 0.8 else [dead, late]
+        if len({m[0] for m in mods if m[0].isdigit()}) < len([m for m in mods if m[0].isdigit()]):
+            continue
+        rng.shuffle(mods)
+        name = sugar + "".join(mods)
+        without = sugar + "".join(m for m in mods if m != dead)
+        for variant, base in ((name, without), ("Man(a1-4)" + name, "Man(a1-4)" + without), (name + "(b1-4)Glc", without + "(b1-4)Glc")):
+            relex.append((n + len(multi), base, variant, dead))
+            for full in (True, False):
+                jobs.append((base, full))
+                meta.append((n + len(multi), "base", full, "dead-mod-second-round", base))
+                jobs.append((variant, full))
+                meta.append((n + len(multi), "variant", full, "dead-mod-second-round", base))
+            multi.append(variant)
     rep.rule = ("random well-formed glycans, each also with exactly one obstacle injected (sugar without table entry, grammar-accepted modification "
                 "without chemistry, supported modification on a carbon the residue does not have, '?' parent position, '?' anomer, floating {fragment}), converted under full=True and full=False; Spec: with "
                 "full=True every obstacle gives ''; with full=False the unobstructed glycan gives the same molecule as under full=True and a glycan "
@@ -133,7 +160,7 @@ def run(rep, tier, driver):
                 # '?' anomer of a linkage: the child anomer stays undefined; the property lists an undetermined linkage as unrealisable
                 rep.violation("input", {"iupac": s, "full": True, "obstacle": kind}, {"result": r}, {"result": ["ok", ""], "note": "an unrealisable part must give the empty string under full=True"},
                               key="full-true:%s:%s" % (kind, s))
-        if role == "variant" and not full and kind in ("dead-mod", "missing-position"):
+        if role == "variant" and not full and kind in ("dead-mod", "missing-position", "dead-mod-second-round"):
             if r != bt:
                 rep.violation("input", {"iupac": s, "full": False, "obstacle": kind, "without": base}, {"result": r}, {"result": bt, "note": "molecule without the unsupported modification"},
                               key="full-false-mod:" + s)
